@@ -68,6 +68,7 @@ INVALID_KINDS = ['dup_assign_prev', 'dup_assign_same_call', 'self_mixed',
 REQUIRED = (['stream_checks', 'input_identity_checks', 'sink_checks',
              'rebatch_checks', 'selftest_checks', 'invalid_build_checks',
              'invalid_twin_checks', 'trigger_chains']
+            + ['rebatch_apply', 'rebatch_assign', 'rebatch_select', 'rebatch_batch']
             + [f'op_{o}' for o in OPS] + [f'key_{s}' for s in SHAPES]
             + [f'invalid_{k}' for k in INVALID_KINDS])
 CHUNK_TIMEOUT_S = {'quick': 240, 'thorough': 3000}
@@ -75,7 +76,7 @@ FEEDS = ['list', 'list', 'iter', 'gen', 'seq_ds', 'data_source']
 
 
 def plan(tier, seed):
-  n_chunks, per = (15, 1000) if tier == "quick" else (64, 30000)
+  n_chunks, per = (15, 1000) if tier == "quick" else (64, 20000)
   specs = [{'mode': 'selftest'}]
   for c in range(n_chunks):
     specs.append({'mode': 'chains', 'rseed': seed, 'chunk': c, 'count': per})
@@ -231,6 +232,7 @@ def check_chain_case(ctx, case, resolve_fn=None):
     shapes |= g.key_shapes(op)
     if op.get('fbs') or op.get('bs') or op['op'] == 'batch':
       ctx.count('rebatch_checks')
+      ctx.count('rebatch_' + op['op'])
   for s in shapes:
     ctx.count('key_' + s)
   ctx.count('feed_' + feed)
